@@ -79,6 +79,35 @@ def build_gev(profile="checked"):
     return os.path.join(TARGET, "release" if profile == "shipped" else "debug", "gev")
 
 
+def build_gev_asan():
+    """The driver under AddressSanitizer (nightly toolchain, release profile, own target directory).
+    Returns the binary path, or None with a log line when the toolchain cannot produce it (the sanitizer pass is
+    then not performed; nothing else depends on it)."""
+    os.makedirs(BUILD, exist_ok=True)
+    lock = open(os.path.join(BUILD, "cargo.asan.flock"), "w")
+    fcntl.flock(lock, fcntl.LOCK_EX)
+    try:
+        env = cargo_env()
+        env["CARGO_TARGET_DIR"] = os.path.join(BUILD, "asan-target")
+        env["RUSTFLAGS"] = "-Zsanitizer=address -Cforce-frame-pointers=yes"
+        cmd = ["cargo", "+nightly", "build", "--offline", "--quiet", "--release", "--target", "x86_64-unknown-linux-gnu"]
+        t0 = time.time()
+        try:
+            p = subprocess.run(cmd, cwd=os.path.join(VERIF, "harness"), env=env, stdout=subprocess.PIPE, stderr=subprocess.PIPE, text=True, timeout=1800)
+        except (OSError, subprocess.TimeoutExpired) as e:
+            log(f"[build] gev (asan) not available: {e}")
+            return None
+        if p.returncode != 0:
+            log("[build] gev (asan) not available: " + p.stderr[-400:])
+            return None
+        if time.time() - t0 > 5:
+            log(f"[build] gev (asan) rebuilt in {time.time() - t0:.1f}s")
+        return os.path.join(BUILD, "asan-target", "x86_64-unknown-linux-gnu", "release", "gev")
+    finally:
+        fcntl.flock(lock, fcntl.LOCK_UN)
+        lock.close()
+
+
 def _limits(cpu_s, mem_bytes):
     def f():
         resource.setrlimit(resource.RLIMIT_CPU, (cpu_s, cpu_s + 5))
@@ -98,7 +127,7 @@ def _limits(cpu_s, mem_bytes):
     return f
 
 
-def _run_one_worker(binary, mode, cases, results, cpu_per_case=60, mem_bytes=6 << 30, wall_s=900, extra_args=()):
+def _run_one_worker(binary, mode, cases, results, cpu_per_case=60, mem_bytes=6 << 30, wall_s=900, extra_args=(), env=None):
     """Feed `cases` to one gev process; restart after the case that killed it.
     results[id] = parsed result or {"crash": {...}} or {"inconclusive": reason}."""
     i = 0
@@ -112,6 +141,7 @@ def _run_one_worker(binary, mode, cases, results, cpu_per_case=60, mem_bytes=6 <
             stdout=subprocess.PIPE,
             stderr=subprocess.PIPE,
             preexec_fn=_limits(cpu, mem_bytes),
+            env=env,
         )
         data = "".join(json.dumps(c, ensure_ascii=False) + "\n" for c in batch).encode("utf-8", "surrogatepass")
         timed_out = False
